@@ -7,7 +7,7 @@ PROPS: dict = {}
 
 A_H11 = "A-h11 (assumed, bounded audit): h11.Connection client-role contract - see contracts/ext_h11.py"
 A_H2 = "A-h2 (assumed, bounded audit): h2.connection.H2Connection contract - see contracts/ext_h2.py"
-A_NET = "A-runtime (assumed): the runtime PRIMITIVES (trio / anyio / threading Event, Lock, Semaphore, CancelScope, sockets, fail_after) and sniffio; the network stream / backend interface used by the connection classes - see contracts/common.py, ext_runtime.py. The layer of /repo over them IS under contract: _synchronization.py and AutoBackend (contracts/m_sync.py), the three back ends (m_backends.py), Trace protocol methods, Response, request()/stream() (m_support.py). Still assumed in /repo itself: map_exceptions (8-line generator mirrored by a stub), Trace.trace/atrace (runs the caller hook), TLSinTLSStream, get_extra_info, httpcore._api.request/stream"
+A_NET = "A-runtime (assumed): the runtime PRIMITIVES (trio / anyio / threading Event, Lock, Semaphore, CancelScope, sockets, fail_after) and sniffio; the network stream / backend interface used by the connection classes - see contracts/common.py, ext_runtime.py. The layer of /repo over them IS under contract: _synchronization.py and AutoBackend (contracts/m_sync.py), the three back ends (m_backends.py), Trace protocol methods, Response, request()/stream() (m_support.py). Still assumed in /repo itself: map_exceptions beyond the one mapping shape it is verified for (m_support.py), Trace.trace/atrace (runs the caller hook), get_extra_info, httpcore._api.request/stream, mock back ends"
 A_SOCKS = "A-socksio (assumed): SOCKS5Connection negotiation contract - see contracts/m_socks_proxy.py"
 A_STD = "A-stdlib (assumed, bounded audit): urllib.parse decomposition contract, str.encode('ascii'), base64 - see contracts/m_models.py"
 A_IFACE = "interface abstraction: pool-level proofs use ghost observers of AsyncConnectionInterface; each class is proved against its own observer spec; the composition is a paper argument (DESIGN 2.4)"
@@ -108,6 +108,7 @@ prop(
     "C15",
     title="only documented exception types reach the caller",
     explanation="raises clauses: for every function under contract every exception class that can escape on any path (callee outcomes per assumed raises sets, implicit IndexError/KeyError/ValueError/AssertionError/TypeError sites, map_exceptions mappings read from the code) is in the documented set",
+    bounded=['map_exceptions (httpcore/_exceptions.py) is verified against the stub that stands for it for ONE mapping shape ({specific class: A, its base class: B}, the shape every back end uses) and four thrown classes: shape-bounded, the general statement stays assumed'],
     trusted=[A_H11, A_H2, A_NET, A_SOCKS, A_SYNC, "raises sets of h11, h2, socksio, backends as stated in the sidecars (assumed)", "exceptions of caller-supplied callables (trace callback, body iterator) excluded by precondition"],
     not_decided=["'never hangs once input has ended' only as: loops that poll the parser read the network each round (no liveness proof)"],
     audits=[AUD_TRIO],
